@@ -46,6 +46,23 @@ func (self *supportedFeatures) Initialize(m *Module) error {
 			}
 		}
 	}
+	// a feature that depends on other features is only on when its own if-feature holds
+	for changed := true; changed; {
+		changed = false
+		for id, f := range enabled {
+			for _, iff := range f.IfFeatures() {
+				on, err := iff.Evaluate(enabled)
+				if err != nil {
+					return err
+				}
+				if !on {
+					delete(enabled, id)
+					changed = true
+					break
+				}
+			}
+		}
+	}
 	if self.enabled == nil {
 		self.enabled = enabled
 	} else {
